@@ -1665,6 +1665,11 @@ class DipStoreMachine(Machine):
         if rng.random() < 0.15:
             # the parser is used as a context manager and asked to parse after its block
             op["with_block"] = True
+        if rng.random() < 0.12:
+            # a second parser object is alive while this round runs: it was given the text of an
+            # earlier committed round (same base) and parses during or after this round
+            op["straddle"] = {"k": rng.randint(0, 99),
+                              "when": rng.choice(["middle", "after", "same_object", "same_object"])}
         if base >= 0 and rng.random() < 0.1:
             # a documentation build runs over the base environment first
             # (DIP(base, docs=True).parse_docs()); the base is what it was, and the parse that
@@ -1941,6 +1946,8 @@ class DipStoreMachine(Machine):
                 self.stats.fault("documentation_built_over_the_base_first", True)
             except Exception:
                 self.stats.fault("documentation_built_over_the_base_first", False)
+        sib = self._sibling_open(op, name, base)
+        p = None
         try:
             p = DIP(base["env"], name=name) if base else DIP(name=name)
             if op.get("with_block"):
@@ -1956,23 +1963,27 @@ class DipStoreMachine(Machine):
                 except Exception:
                     refused = True
                 self.stats.fault("malformed_text_then_retry_on_the_same_parser", refused)
-            for c, stmts in chunks:
-                if c["via"] == "file":
-                    p.add_file(c["path"])
-                elif c["via"] == "api":
-                    for st in stmts:
-                        if st["k"] == "unit":
-                            p.add_unit(st["name"], st["value"], st.get("unit"))
-                        elif st["k"] == "source":
-                            p.add_source(st["name"], st["path"])
-                    self.stats.probe("definitions_through_python_api")
-                else:
-                    p.add_string("\n".join(DM.render(st) for st in stmts))
+            self._feed(p, chunks)
             if op.get("with_block"):
                 p.__exit__(None, None, None)
+            if sib and sib["when"] == "middle":
+                self._sibling_parse(sib)
             env = p.parse()
         except Exception as e:
             got, err = "abort", e
+        if sib and "got" not in sib:
+            if sib.get("same_object"):
+                # the parser object of this round is handed the other text now and asked again
+                sib["parser"] = p
+                try:
+                    for c, stmts in sib["chunks"]:
+                        for st in stmts:
+                            if st["k"] == "fn":
+                                p.add_function(st["fname"], make_callback(st, self.stats))
+                    self._feed(p, sib["chunks"])
+                except Exception as e:
+                    sib["got"], sib["error"] = "abort", e
+            self._sibling_parse(sib)
         self.fs.plan = {}
         if io:
             self.stats.fault("io_" + io["kind"], bool(self.fs.fired))
@@ -1988,6 +1999,8 @@ class DipStoreMachine(Machine):
                        "text": [("file " + c["path"] if c["via"] == "file" else "string") + ":\n" +
                                 "\n".join(DM.render(st) for st in s) for c, s in chunks],
                        "io_fault": io}
+        if sib:
+            self._sibling_verdict(sib, detail_base)
         # ---- oracle 3: earlier environments and files untouched (always)
         for e in self.envs:
             try:
@@ -2071,9 +2084,115 @@ class DipStoreMachine(Machine):
         self._revalidate(data, model, detail_base)
         snap = env_snapshot(env)
         model.may_abort = False
-        self.envs.append({"env": env, "model": model, "snap": snap, "name": name})
+        self.envs.append({"env": env, "model": model, "snap": snap, "name": name,
+                          # what a second parser needs to do the same again (sibling parses)
+                          "op": op, "base_rec": base, "files": self.fs.snapshot(),
+                          "again": not io and not op.get("settings_first") and not missing_chunk_file})
         self.abstract = f"e{min(len(self.envs), 6)}"
         return "committed", [len(model.nodes), list(model.nodes)[:6]]
+
+    # ---- two parser objects alive at once: the merge order of two sessions is the schedule
+    def _chunks_of(self, op):
+        out = []
+        for c in op["chunks"]:
+            if c["via"] == "file":
+                f = self.files.get(c["path"])
+                if f is None or f["kind"] != "dip":
+                    return None
+                out.append((c, f["stmts"]))
+            else:
+                out.append((c, c["stmts"]))
+        return out
+
+    def _feed(self, p, chunks):
+        for c, stmts in chunks:
+            if c["via"] == "file":
+                p.add_file(c["path"])
+            elif c["via"] == "api":
+                for st in stmts:
+                    if st["k"] == "unit":
+                        p.add_unit(st["name"], st["value"], st.get("unit"))
+                    elif st["k"] == "source":
+                        p.add_source(st["name"], st["path"])
+                self.stats.probe("definitions_through_python_api")
+            else:
+                p.add_string("\n".join(DM.render(st) for st in stmts))
+
+    def _sibling_open(self, op, name, base=None):
+        """A second session: the text of an earlier committed round is handed once more to a
+        parser object of its own, on the same base, *before* this round's parser exists; it is
+        asked to parse while this round's parser holds its queued text ("middle") or after this
+        round has ended, however it ended ("after").  The same text on the same base must give
+        the environment it gave then - whatever another parser object did in between."""
+        sd = op.get("straddle")
+        if not sd or not self.envs or op.get("io_fault"):
+            return None      # (an I/O fault planned for this round would hit the sibling's reads)
+        rec = self.envs[sd["k"] % len(self.envs)]
+        if not rec.get("again") or rec["files"] != self.fs.snapshot():
+            self.stats.fault("sibling_parser_straddles_the_round", False)
+            return None
+        chunks = self._chunks_of(rec["op"])
+        if chunks is None:
+            self.stats.fault("sibling_parser_straddles_the_round", False)
+            return None
+        sib = {"rec": rec, "when": sd.get("when", "after")}
+        if sib["when"] == "same_object":
+            # no second parser: this round's own parser object parses a second time.  A parser
+            # starts from its base every time it is asked (probed on the pinned tree), so the
+            # text of an earlier round on the same base must give that round's environment again
+            if rec["base_rec"] is not base or any(c["via"] != "string" for c, _ in chunks):
+                self.stats.fault("parser_object_parses_a_second_text", False)
+                return None
+            sib.update(same_object=True, chunks=chunks)
+            self.stats.fault("parser_object_parses_a_second_text", True)
+            self.nontrivial = True
+            return sib
+        try:
+            b = rec["base_rec"]
+            sp = DIP(b["env"], name=name + "sib") if b else DIP(name=name + "sib")
+            for c, stmts in chunks:
+                for st in stmts:
+                    if st["k"] == "fn":
+                        sp.add_function(st["fname"], make_callback(st, self.stats))
+            self._feed(sp, chunks)
+            sib["parser"] = sp
+        except Exception as e:
+            sib["got"], sib["error"] = "abort", e
+        self.stats.fault("sibling_parser_straddles_the_round", True)
+        self.nontrivial = True
+        return sib
+
+    def _sibling_parse(self, sib):
+        if "got" in sib:
+            return
+        try:
+            sib["env"] = sib["parser"].parse()
+            sib["got"] = "commit"
+        except Exception as e:
+            sib["got"], sib["error"] = "abort", e
+
+    def _sibling_verdict(self, sib, detail_base):
+        rec = sib["rec"]
+        now, same = None, False
+        if sib.get("got") == "commit":
+            try:
+                now = env_snapshot(sib["env"])
+                same = snapshot_equal(rec["snap"], now)
+            except Exception as ex:
+                now = {"error": repr(ex)}
+        else:
+            e = sib.get("error")
+            now = {"error": [type(e).__name__, repr(getattr(e, "args", ""))[:300]]}
+        self.stats.probe("sibling_parse_" + sib["when"])
+        if not same:
+            chunks = self._chunks_of(rec["op"]) or []
+            raise Violation("sibling_parse_differs",
+                            dict(detail_base, sibling_of=rec["name"], when=sib["when"],
+                                 sibling_text=["\n".join(DM.render(st) for st in s)
+                                               for c, s in chunks],
+                                 was=_short(rec["snap"]), now=_short(now)),
+                            signature=f"{self.cfg['prop']}/sibling/{sib['when']}/" +
+                                      ("error" if "keys" not in (now or {}) else "differs"))
 
     def _compare(self, env, data, types, model, stmts, detail_base, tag):
         want_keys = list(model.nodes)
@@ -2203,6 +2322,8 @@ class DipStoreMachine(Machine):
                 yield dict(op, with_block=False)
             if op.get("docs_first"):
                 yield dict(op, docs_first=False)
+            if op.get("straddle"):
+                yield dict(op, straddle=None)
             if op.get("settings_first") and len(ch) > 1:
                 yield dict(op, settings_first=False, chunks=ch[1:])
             if op.get("base", -1) >= 0:
